@@ -320,4 +320,35 @@ theorem code_sessionIdFromCookie (env : Go.Env) (headers : Go.Map) (c : Pb.OIDCC
       cases hl : lookupLast (decodeCookies (Go.Map.get headers (B "cookie"))) (cookieName cfg) with
       | none => rw [hl] at h1; simp at h1; simp [h1]
       | some v => rw [hl] at h1; simp at h1; simp [h1]
+set_option linter.unusedVariables false in
+theorem code_tokensExpired (env : Go.Env) (o : Pb.OidcHandler) (t : Pb.TokenResponse) (cfg : Cfg) (a : TokAttrs) (tok : Tokens)
+    (now : Int) (jt : Go.JwtToken)
+    (ho : o.isNil = false) (hc : o.config.isNil = false) (ht : t.isNil = false)
+    (hp : env.parseTokenOracle t.IDToken = (jt, false)) (hj : jt.isNil = false) (hexp : jt.exp.unixNano = some a.exp)
+    (hnow : env.now.unixNano = some now)
+    (hacc : cfg.access.isSome = !o.config.GetAccessToken.isNil)
+    (h2 : tok.accessToken = t.AccessToken) (h3 : tok.accessExp = t.AccessTokenExpiresAt.unixNano) :
+    Code.areRequiredTokensExpired env o t = .ok (tokensExpired cfg a tok now, {}) := by
+  unfold Code.areRequiredTokensExpired tokensExpired
+  simp only [Pb.parseIDToken, Pb.clockNow, Go.Env.parseToken, hp, ho, hc, ht, hj, bind, Except.bind, pure, Except.pure,
+    Go.JwtToken.Expiration!, Pb.OidcHandler.config!, Pb.TokenResponse.AccessToken!, Pb.TokenResponse.AccessTokenExpiresAt!,
+    Go.Time.IsZero!, Go.Time.before, hexp, hnow, hacc, h2, h3, if_false, Bool.false_eq_true, Bool.not_false]
+  have hB : B "" = [] := by decide
+  rw [hB]
+  by_cases h1 : a.exp < now
+  · simp [h1]
+  · cases h4 : o.config.GetAccessToken.isNil
+    · by_cases h5 : t.AccessToken = []
+      · simp [h1, h4, h5]
+      · cases h6 : t.AccessTokenExpiresAt.unixNano with
+        | none => simp [h1, h4, h5, h6]
+        | some ex => by_cases h7 : ex < now <;> simp [h1, h4, h5, h6, h7]
+    · simp [h1, h4]
+
+theorem code_tokensExpired_unparsable (env : Go.Env) (o : Pb.OidcHandler) (t : Pb.TokenResponse) (jt : Go.JwtToken)
+    (ht : t.isNil = false) (hp : env.parseTokenOracle t.IDToken = (jt, true)) :
+    Code.areRequiredTokensExpired env o t = .ok (false, { isNil := false }) := by
+  unfold Code.areRequiredTokensExpired
+  simp [Pb.parseIDToken, Go.Env.parseToken, hp, ht, bind, Except.bind, pure, Except.pure]
+
 end AuthModel
